@@ -36,6 +36,44 @@ CLAIMED = {
     ),
 }
 
+CLAIMED.update({
+    "C10": dict(
+        category="fault_enumeration",
+        technique="deterministic simulation: solver status / verification faults enumerated over every solve index of a genotype() call, adversarial optimum choice, hash seeds; oracle recomputes the selection rule from the recorded stage history",
+        text="For sampled generated workloads with competing structures and major solutions, a fault-free pilot counts "
+             "the solves of genotype(); then every fault kind (INFEASIBLE, ABNORMAL, NOT_SOLVED, non-optimal FEASIBLE "
+             "incumbent, failed verification) is injected at every solve index (first 40), one per run. For every run the "
+             "recorded returns of estimate_cn / estimate_major / estimate_minor are re-evaluated: carried-over scores, "
+             "gap filter, order, chain consistency, and the error / output behaviour when a stage returns nothing.",
+        note="Trusted: the recording wrappers; the oracle is relative to the stage returns (their optimality is C02-C05). "
+             "Boundary band 1e-4 around gap + precision. Fault points enumerated completely per workload, workloads sampled.",
+        design="DESIGN.md section 4 (C10)",
+    ),
+    "C17": dict(
+        category="exploration",
+        technique="deterministic simulation of a write -> process restart -> read history through the real CLI: different hash seed, cwd, TMPDIR and clock on the reading side; solver / disk-full / failing-gene faults after the dump exists",
+        text="Seeded two-segment histories: `aldy genotype <bam> --debug` in one interpreter, `aldy genotype <archive>` in "
+             "another with a different PYTHONHASHSEED, cwd, TMPDIR and clock, per gene or for all genes of the archive; "
+             "faults in the writing segment after the dump was written. The replayed results, scores (1e-2) and output "
+             "bytes must equal a fault-free direct run on the alignments. Sampling of worlds, parameters and faults.",
+        note="Trusted: recording wrapper around aldy.__main__.genotype; canonical renderings. Torn archives are out of scope "
+             "(statement is silent).",
+        design="DESIGN.md section 4 (C17)",
+    ),
+    "C19": dict(
+        category="fault_enumeration",
+        technique="deterministic simulation: data-loss faults on the alignment stream (container writer and AlignmentFile seam) enumerated over loss kind x profile route x output format x single/multi-gene",
+        text="The full grid of 9 loss kinds (gene locus, gene only, neutral region empty / nearly empty, empty file, depth "
+             "just below / just above the configured minimum, read error at the k-th record, records dropped at the "
+             "stream seam) x 3 routes (profile YAML, BAM as profile, user-supplied structure) x 4 output formats x "
+             "single / multi-gene is walked; worlds are sampled. Oracle: Aldy error, no call, no allele rows, exact "
+             "empty simple line, healthy companion gene unchanged, pseudogene-only = two deletions, just-above = call.",
+        note="Trusted: the world generator's read layout (which reads belong to the locus). Two cells of the statement are "
+             "not combined with a user-supplied structure because the statement does not settle them (DESIGN.md).",
+        design="DESIGN.md section 4 (C19)",
+    ),
+})
+
 NA = {
     "C08": "pure function of the database text (coordinate conversion): no schedule, fault, clock, history or solver choice can reach it; deciding it is exhaustive input comparison, not simulation (DESIGN.md section 5)",
     "C09": "catalogue construction is a pure function of the database text; only its stability across hash seeds and histories is environment-dependent and that part is checked under C14",
